@@ -4,10 +4,20 @@ from __future__ import annotations
 
 import ast
 
-from ..cfg import CFG, dominators
-from ..kinds import has_call, reach
+from ..cfg import CFG
 from ..model import AnalysisError, chain, unparse
 from ..report import RuleResult
+from ._c11_sem import Facts, call_name, closer, falsy_result, node_calls, node_of, path_text, reach3, truthy_source
+
+
+def _is_h5py_file(p, mod, ch) -> bool:
+    """`h5py.File`, also through `import h5py as <x>` / `from h5py import File`."""
+    if ch[0] == "h5py":
+        return True
+    r = p.resolve_name(mod, ch[0])
+    if not r or r[0] != "external":
+        return False
+    return ".".join([r[1]] + list(ch[1:])) == "h5py.File"
 
 
 def _acquisitions(ctx):
@@ -21,7 +31,7 @@ def _acquisitions(ctx):
             if not isinstance(n, ast.Call):
                 continue
             ch = chain(n.func)
-            if ch and ch[-1] == "File" and ch[0] == "h5py":
+            if ch and ch[-1] == "File" and _is_h5py_file(p, fn.module, ch):
                 out.append((fn, n, "h5py.File"))
                 continue
             r = p.resolve_expr(fn.module, n.func) if ch else None
@@ -46,6 +56,60 @@ def _stmt_of(fn, node):
     return None
 
 
+def _acq(ctx):
+    if "c11.acquisitions" not in ctx.cache:
+        ctx.cache["c11.acquisitions"] = _acquisitions(ctx)
+    return ctx.cache["c11.acquisitions"]
+
+
+def _target(st):
+    """The single target of `x = <..>` / `x: T = <..>`."""
+    if isinstance(st, ast.Assign):
+        return st.targets[0]
+    if isinstance(st, ast.AnnAssign) and st.value is not None:
+        return st.target
+    return None
+
+
+def _is_gateway(fn, target) -> bool:
+    """`self._geoh5`: the field Workspace.close() releases."""
+    return isinstance(target, ast.Attribute) and target.attr == "_geoh5" and isinstance(target.value, ast.Name) and target.value.id in ("self", fn.self_name)
+
+
+def _receiver(call, kind):
+    return call.func.value if kind == ".open(" and isinstance(call.func, ast.Attribute) else None
+
+
+def _handles(fn, call, kind) -> set:
+    """Texts of the expressions that denote the handle opened by `call`: the local it is bound to, and for
+    `<ws>.open(..)` (which returns <ws>) the receiver."""
+    out = set()
+    tgt = _target(_stmt_of(fn, call))
+    if isinstance(tgt, ast.Name):
+        out.add(tgt.id)
+    recv = _receiver(call, kind)
+    if recv is not None:
+        out.add(unparse(recv))
+    return out
+
+
+def _releaser(fn, call, kind):
+    """Predicate on CFG nodes of fn: the node releases the handle opened by `call` (close() on it, the exit of a
+    with-block over it or over closing(it), the exit of the with-block whose item the call is)."""
+    base = closer(fn.node, _handles(fn, call, kind))
+    withs = [w for w in ast.walk(fn.node) if isinstance(w, (ast.With, ast.AsyncWith)) and any(any(x is call for x in ast.walk(it.context_expr)) for it in w.items)]
+    return lambda n: base(n) or (n.kind == "withexit" and any(n.stmt is w for w in withs))
+
+
+def _protected(g, node, releases) -> bool:
+    """Exceptions raised at `node` are intercepted (try / with frame) and every path out of it, normal or exceptional,
+    passes a release before leaving the function."""
+    if not any(l == "exc" for _, l in node.succ):
+        return False
+    after = reach3(g, [m for m, _ in node.succ], avoid=releases)
+    return g.exit not in after and g.rexit not in after
+
+
 def rule_pair(ctx) -> RuleResult:
     res = RuleResult(
         "C11.PAIR",
@@ -56,7 +120,7 @@ def rule_pair(ctx) -> RuleResult:
         floor=8,
     )
     p = ctx.p
-    for fn, call, kind in _acquisitions(ctx):
+    for fn, call, kind in _acq(ctx):
         where = f"{fn.module.relpath}:{call.lineno}"
         st = _stmt_of(fn, call)
         how = None
@@ -64,38 +128,49 @@ def rule_pair(ctx) -> RuleResult:
         for w in ast.walk(fn.node):
             if isinstance(w, (ast.With, ast.AsyncWith)) and any(any(x is call for x in ast.walk(it.context_expr)) for it in w.items):
                 how = "context manager"
-        if how is None and isinstance(st, ast.Assign):
-            tgt = unparse(st.targets[0])
-            if tgt == "self._geoh5":
-                how = "stored in the gateway field self._geoh5 (released by Workspace.close)"
-            elif isinstance(st.targets[0], ast.Name):
-                name = st.targets[0].id
-                g = CFG(fn.node)
-                node = next(n for n in g.nodes if n.ast is not None and not isinstance(n.ast, list) and any(x is call for x in ast.walk(n.ast)))
-                closes = lambda n, name=name: has_call(n, lambda c: isinstance(c.func, ast.Attribute) and c.func.attr == "close" and unparse(c.func.value) == name)  # noqa: E731
-                used_as_cm = any(isinstance(w, ast.With) and any(unparse(it.context_expr) == name for it in w.items) for w in ast.walk(fn.node))
-                after = reach(g, [m for m, _ in node.succ], avoid=closes)
-                leaks_normal = g.exit in after
-                leaks_exc = g.rexit in after
-                if used_as_cm:
-                    how = "local used as a context manager"
-                elif not leaks_normal and not leaks_exc:
-                    how = f"local `{name}` closed on every path"
-                elif not leaks_normal:
-                    # exceptional leak only matters if something between open and close is inside a try/with (explicit promise)
-                    how = f"local `{name}` closed on every normal path"
-                else:
-                    how = None
-                    res.inst(f"{fn.qualname}:{call.lineno} {kind} -> local `{name}` NOT closed on a normal path", ok=False)
-                    res.find(fn.cls.name if fn.cls else fn.module.short, fn.prop or fn.name, f"{kind} assigned to `{name}` is not closed on every path",
-                             where, f"the handle opened at {where} can reach the end of {fn.qualname} without close(): an HDF5 handle stays open")
-                    continue
+        if how is None and any(isinstance(c, ast.Call) and call_name(c) in ("enter_context", "enter_async_context") and any(x is call for a in c.args for x in ast.walk(a))
+                               for c in ast.walk(fn.node)):
+            how = "context manager (entered on an exit stack)"
+        tgt = _target(st)
+        handles = _handles(fn, call, kind)
+        bare_reopen = isinstance(st, ast.Expr) and st.value is call and _receiver(call, kind) is not None  # `<ws>.open(mode=..)` as a statement
+        if how is None and _is_gateway(fn, tgt):
+            how = "stored in the gateway field self._geoh5 (released by Workspace.close)"
+        elif how is None and (isinstance(tgt, ast.Name) or bare_reopen):
+            name = tgt.id if isinstance(tgt, ast.Name) else unparse(_receiver(call, kind))
+            g = CFG(fn.node)
+            node = node_of(g, call)
+            if node is None:
+                raise AnalysisError(f"{fn.qualname}:{call.lineno}: acquisition not found in the control-flow graph")
+            closes_h = closer(fn.node, handles)
+            # moving the local into the gateway field hands it to Workspace.close()
+            to_gateway = lambda n: isinstance(n.ast, (ast.Assign, ast.AnnAssign)) and _is_gateway(fn, _target(n.ast)) and n.ast.value is not None and closes_h.denotes(n.ast.value)  # noqa: E731
+            closes = lambda n: closes_h(n) or to_gateway(n)  # noqa: E731
+            used_as_cm = any(isinstance(w, (ast.With, ast.AsyncWith)) and any(closes_h.releases_item(it.context_expr) for it in w.items) for w in ast.walk(fn.node))
+            after = reach3(g, [m for m, _ in node.succ], avoid=closes)
+            leaks_normal = g.exit in after
+            leaks_exc = g.rexit in after
+            if used_as_cm:
+                how = "local used as a context manager"
+            elif not leaks_normal and not leaks_exc:
+                how = f"local `{name}` closed on every path"
+            elif not leaks_normal:
+                # exceptional leak only matters if something between open and close is inside a try/with (explicit promise)
+                how = f"local `{name}` closed on every normal path"
+            else:
+                how = None
+                res.inst(f"{fn.qualname}:{call.lineno} {kind} -> local `{name}` NOT closed on a normal path", ok=False)
+                res.find(fn.cls.name if fn.cls else fn.module.short, fn.prop or fn.name, f"{kind} assigned to `{name}` is not closed on every path",
+                         where, f"the handle opened at {where} can reach the end of {fn.qualname} without close(): an HDF5 handle stays open")
+                continue
         if how is None and isinstance(st, ast.Return):
             how = "returned to the caller (ownership transferred)"
-        if how is None and isinstance(st, ast.Expr) and isinstance(st.value, (ast.Yield,)):
-            # `yield workspace.open(mode=mode)` inside try/finally: close()
-            tr = next((t for t in ast.walk(fn.node) if isinstance(t, ast.Try) and any(x is call for s in t.body for x in ast.walk(s))), None)
-            if tr is not None and any(isinstance(c, ast.Call) and isinstance(c.func, ast.Attribute) and c.func.attr == "close" for s in tr.finalbody for c in ast.walk(s)):
+        if how is None and isinstance(st, ast.Expr) and isinstance(st.value, (ast.Yield,)) and handles:
+            # `yield workspace.open(mode=mode)`: an exception thrown in at the yield and the normal resumption both pass close()
+            # (try/finally, or `with closing(workspace)`)
+            g = CFG(fn.node)
+            node = node_of(g, call)
+            if node is not None and _protected(g, node, closer(fn.node, handles)):
                 how = "yielded inside try/finally: close()"
         if how is None:
             res.inst(f"{fn.qualname}:{call.lineno} {kind} -> release not recognised", ok=False)
@@ -103,54 +178,75 @@ def rule_pair(ctx) -> RuleResult:
                      where, f"the handle opened at {where} has no recognised release")
             continue
         res.inst(f"{fn.qualname}:{call.lineno} {kind} -> {how}", nontrivial=True)
-    # Workspace.close
-    cl = p.func("Workspace.close")
+    # Workspace.close (private helpers expanded: the flush / repack blocks may live in methods of their own)
+    cl = ctx.view("Workspace.close")
+    sn = cl.self_name or "self"
+    handle_texts = (f"{sn}._geoh5", f"{sn}.geoh5")
+    opened = {t: True for t in handle_texts}
     g = CFG(cl.node)
-    closes = lambda n: has_call(n, lambda c: unparse(c.func) in ("self.geoh5.close", "self._geoh5.close"))  # noqa: E731
-    guard_nodes = [n for n in g.nodes if n.kind == "test" and unparse(n.ast) in ("not self._geoh5", "self._geoh5 is None", "not self.geoh5")]
-    starts = [m for gn in guard_nodes for m, l in gn.succ if l == "false"] or [g.entry]
-    after = reach(g, starts, avoid=closes)
+    plain = Facts(cl.node)
+    is_handle = lambda e: plain.text(e) in handle_texts  # noqa: E731
+    closes = lambda n: any(isinstance(c.func, ast.Attribute) and c.func.attr == "close" and is_handle(c.func.value) for c in node_calls(n))  # noqa: E731
+    # past the already-closed guard = under the assumption that the handle is there and open, however the guard is written
+    is_open = Facts(cl.node, truthy=opened, notnone=opened)
+    after = reach3(g, [g.entry], is_open, avoid=closes)
     ok = g.exit not in after
     res.inst("Workspace.close: File.close() on every normal path past the already-closed guard", nontrivial=True, ok=ok)
     if not ok:
         res.find("Workspace", "close", "a normal path skips self.geoh5.close()", cl.where, "close() can return with the HDF5 handle still open")
     # the final save precedes File.close (operations completed before the close are in the file)
-    saves = [n for n in g.nodes if has_call(n, lambda c: isinstance(c.func, ast.Attribute) and c.func.attr == "_io_call" and c.args and unparse(c.args[0]) == "H5Writer.save_entity")]
+    is_save = lambda n: any(_is_final_save(c, plain) for c in node_calls(n))  # noqa: E731
+    saves = [n for n in g.nodes if is_save(n)]
     cls_nodes = [n for n in g.nodes if closes(n)]
-    dom = dominators(g)
-    ok = bool(saves) and all(not (set(reach(g, [c])) & set(saves)) for c in cls_nodes)
+    ok = bool(saves) and all(not (set(reach3(g, [c])) & set(saves)) for c in cls_nodes)
     res.inst("Workspace.close: the final save of the root subtree happens before File.close()", nontrivial=True, ok=ok)
     if not ok:
         res.find("Workspace", "close", "final save after (or without) File.close()", cl.where, "the last save runs on a closed handle or not at all")
-    # the writable-mode test, written inline or through a local bound to it
-    mode_names = {a.targets[0].id for a in ast.walk(cl.node) if isinstance(a, ast.Assign) and isinstance(a.targets[0], ast.Name) and "geoh5.mode in" in unparse(a.value)}
-    starts_w = [m for n in g.nodes if n.kind == "test" and ("geoh5.mode in" in unparse(n.ast) or (isinstance(n.ast, ast.Name) and n.ast.id in mode_names))
-                for m, l in n.succ if l == "true"]
-    if not starts_w:
+    # the writable-mode test, whatever its spelling (inline, through a local, negated, in a helper): a test of close() that
+    # comes out differently for handles in different modes
+    with_mode = lambda m: Facts(cl.node, truthy=opened, notnone=opened, value={f"{t}.mode": m for t in handle_texts})  # noqa: E731
+    writable = with_mode("r+")  # what h5py reports for every file opened 'r+', 'a', 'w', 'x'
+    others = [with_mode(m) for m in ("r", "a", "w")]
+    mode_tests = [n for n in g.nodes if n.kind == "test" and n.ast is not None and any(writable.ev(n.ast) != o.ev(n.ast) for o in others)]
+    if not mode_tests:
         raise AnalysisError("Workspace.close: writable-mode test not found")
-    is_save = lambda n: has_call(n, lambda c: isinstance(c.func, ast.Attribute) and c.func.attr == "_io_call" and c.args and unparse(c.args[0]) == "H5Writer.save_entity")  # noqa: E731
-    skipped = reach(g, starts_w, avoid=is_save)
+    skipped = reach3(g, [g.entry], writable, avoid=is_save)
     ok = not any(closes(n) for n in skipped)
     res.inst("Workspace.close: on every writable path the final save happens before File.close()", nontrivial=True, ok=ok)
     if not ok:
         res.find("Workspace", "close", "the final save of the root subtree is conditional", cl.where,
                  "operations completed before the close (entities created with save_on_creation=False, moved children) are not in the file for some workspaces")
-    sa = p.func("Workspace.save_as")
+    # save_as: the source is closed (flushed) before its bytes are copied, wherever the copy is written (helper or inline)
+    sa = ctx.view("Workspace.save_as")
+    sn2 = sa.self_name or "self"
     g2 = CFG(sa.node)
-    copies = [n for n in g2.nodes if n.ast is not None and not isinstance(n.ast, list) and n.kind in ("stmt", "with") and
-              any(isinstance(c, ast.Call) and (unparse(c.func) in ("shutil.copy", "shutil.copyfile", "shutil.copy2") or (isinstance(c.func, ast.Attribute) and c.func.attr in ("write", "getbuffer")))
-                  for c in (ast.walk(n.ast) if n.kind == "stmt" else [x for it in n.ast.items for x in ast.walk(it.context_expr)]))]
-    closes2 = lambda n: has_call(n, lambda c: unparse(c.func) == "self.close")  # noqa: E731
-    dom2 = dominators(g2)
+    copies = [n for n in g2.nodes if any(_is_byte_copy(c) for c in node_calls(n))]
+    closes2 = lambda n: any(unparse(c.func) == f"{sn2}.close" for c in node_calls(n))  # noqa: E731
     if not copies:
         raise AnalysisError("Workspace.save_as: byte copy not found")
-    ok = all(any(closes2(d) or (d.kind == "test" and "_geoh5" in unparse(d.ast)) for d in dom2.get(c, ())) and
-             not (set(reach(g2, [c])) & {n for n in g2.nodes if closes2(n)}) for c in copies)
+    opened2 = {f"{sn2}._geoh5": True, f"{sn2}.geoh5": True}
+    unflushed = reach3(g2, [g2.entry], Facts(sa.node, truthy=opened2, notnone=opened2), avoid=closes2)
+    ok = not any(c in unflushed for c in copies) and all(not (set(reach3(g2, [c])) & {n for n in g2.nodes if closes2(n)}) for c in copies)
     res.inst("Workspace.save_as: close() (flush) precedes the byte copy", nontrivial=True, ok=ok)
     if not ok:
         res.find("Workspace", "save_as", "bytes are copied before the workspace is closed", sa.where,
                  "the copy is taken from an open, unflushed file: the saved file misses everything done since the source was last closed")
     return res
+
+
+def _is_final_save(c, facts) -> bool:
+    """`self._io_call(H5Writer.save_entity, ..)` (the writer entry point possibly read into a local first)."""
+    if not (isinstance(c.func, ast.Attribute) and c.func.attr == "_io_call" and c.args):
+        return False
+    return facts.text(c.args[0]) == "H5Writer.save_entity"
+
+
+def _is_byte_copy(c) -> bool:
+    if unparse(c.func) in ("shutil.copy", "shutil.copyfile", "shutil.copy2", "shutil.copyfileobj"):
+        return True
+    if isinstance(c.func, ast.Attribute) and c.func.attr in ("write", "getbuffer", "write_bytes", "getvalue"):
+        return True
+    return isinstance(c.func, ast.Name) and c.func.id in ("copyfile", "copy2", "copyfileobj")
 
 
 def rule_exit(ctx) -> RuleResult:
@@ -162,19 +258,20 @@ def rule_exit(ctx) -> RuleResult:
         floor=3,
     )
     p = ctx.p
-    ex = p.func("Workspace.__exit__")
+    ex = ctx.view("Workspace.__exit__")
+    sn = ex.self_name or "self"
     g = CFG(ex.node)
-    closes = lambda n: has_call(n, lambda c: unparse(c.func) == "self.close")  # noqa: E731
-    ok = g.exit not in reach(g, [g.entry], avoid=closes) and any(closes(n) for n in g.nodes)
+    closes = lambda n: any(path_text(c.func, ex.node) == f"{sn}.close" for c in node_calls(n))  # noqa: E731
+    ok = g.exit not in reach3(g, [g.entry], avoid=closes) and any(closes(n) for n in g.nodes)
     res.inst("__exit__: self.close() on every path", nontrivial=True, ok=ok)
     if not ok:
         res.find("Workspace", "__exit__", "close() is conditional or missing", ex.where,
                  "leaving a with-block (normally or through an exception) can leave the file open")
-    rets = [r for r in ast.walk(ex.node) if isinstance(r, ast.Return) and r.value is not None and unparse(r.value) not in ("None", "False")]
+    rets = [r for r in ast.walk(ex.node) if isinstance(r, ast.Return) and not falsy_result(r.value, ex.node)]
     ok = not rets
     res.inst("__exit__: returns nothing truthy (does not swallow exceptions)", ok=ok)
     if not ok:
-        res.find("Workspace", "__exit__", f"returns {unparse(rets[0].value)}", ex.where, "exceptions raised inside the with-block are swallowed")
+        res.find("Workspace", "__exit__", f"returns {unparse(truthy_source(rets[0].value, ex.node))}", ex.where, "exceptions raised inside the with-block are swallowed")
     base_ok = any((b if isinstance(b, str) else b.name) == "AbstractContextManager" for b in p.cls("Workspace").bases)
     has_enter = p.cls("Workspace").lookup("__enter__") is not None or base_ok
     res.inst("Workspace is a context manager (__enter__ from AbstractContextManager returns self)", ok=has_enter)
@@ -182,10 +279,17 @@ def rule_exit(ctx) -> RuleResult:
         res.find("Workspace", "__enter__", "no __enter__", p.cls("Workspace").where, "`with Workspace(...)` no longer works")
     for spec in ("shared/utils.py:fetch_active_workspace", "shared/utils.py:fetch_h5_handle"):
         fn = p.func(spec)
+        g = CFG(fn.node)
+        acqs = [(c, k, node_of(g, c), _releaser(fn, c, k)) for f, c, k in _acq(ctx) if f.node is fn.node]
         for y in [n for n in ast.walk(fn.node) if isinstance(n, ast.Yield)]:
-            tr = next((t for t in ast.walk(fn.node) if isinstance(t, ast.Try) and any(x is y for s in t.body for x in ast.walk(s))), None)
-            ok = tr is not None and bool(tr.finalbody)
-            res.inst(f"{fn.qualname}:{y.lineno} yield inside try/finally", ok=ok)
+            yn = node_of(g, y)
+            if yn is None:
+                raise AnalysisError(f"{fn.qualname}:{y.lineno}: yield not found in the control-flow graph")
+            # the handles this helper opened itself that are still open when control is handed to the caller's with-block
+            held = [rel for _c, _k, an, rel in acqs if an is not None and (an is yn or yn in reach3(g, [m for m, _ in an.succ], avoid=rel))]
+            ok = all(_protected(g, yn, rel) for rel in held)
+            what = "yield inside try/finally" if held else "yield: nothing opened by the helper is held here (no cleanup owed)"
+            res.inst(f"{fn.qualname}:{y.lineno} {what}", ok=ok)
             if not ok:
                 res.find("utils", fn.name, "yield outside try/finally", f"{fn.module.relpath}:{y.lineno}",
                          "an exception in the caller's with-block skips the cleanup of the handle this helper opened")
@@ -201,10 +305,17 @@ def rule_gate(ctx) -> RuleResult:
         floor=3,
     )
     p = ctx.p
-    io = p.func("Workspace._io_call")
+    io = ctx.view("Workspace._io_call")
+    sn = io.self_name or "self"
+    g = CFG(io.node)
     handlers = [h for t in ast.walk(io.node) if isinstance(t, ast.Try) for h in t.handlers]
     hs = [h for h in handlers if h.type is not None and "Geoh5FileClosedError" in unparse(h.type)]
     ok = bool(hs) and all(any(isinstance(x, ast.Raise) for x in ast.walk(h)) for h in hs)
+    # ... on every path through the handler: it never completes normally
+    for h in hs:
+        hn = next((n for n in g.nodes if n.kind == "except" and n.ast is h), None)
+        if hn is not None and g.exit in reach3(g, [hn]):
+            ok = False
     res.inst("_io_call: `except Geoh5FileClosedError` re-raises a dedicated error", ok=ok)
     if not ok:
         res.find("Workspace", "_io_call", "closed-file error is swallowed", io.where, "calls on a closed workspace return None instead of raising")
@@ -213,20 +324,22 @@ def rule_gate(ctx) -> RuleResult:
         res.inst("_io_call: the closed-file handler has no return (never yields stale / empty results)", ok=g_ok)
         if not g_ok:
             res.find("Workspace", "_io_call", "closed-file handler returns a value", io.where, "stale or empty results after close")
-    gp = p.func("Workspace.geoh5")
+    gp = ctx.view("Workspace.geoh5")
     raises = [r for r in ast.walk(gp.node) if isinstance(r, ast.Raise) and "Geoh5FileClosedError" in unparse(r)]
     ok = bool(raises)
     res.inst("Workspace.geoh5 raises Geoh5FileClosedError", ok=ok)
     if not ok:
         res.find("Workspace", "geoh5", "does not raise Geoh5FileClosedError", gp.where, "closed handles are handed out")
-    # the early `return None` of _io_call is only for `_geoh5 is None`
-    early = [r for r in ast.walk(io.node) if isinstance(r, ast.Return) and (r.value is None or unparse(r.value) == "None")]
-    for r in early:
-        encl = next((i for i in ast.walk(io.node) if isinstance(i, ast.If) and r in i.body), None)
-        ok = encl is not None and unparse(encl.test) == "self._geoh5 is None"
-        res.inst(f"_io_call: `return None` only under `self._geoh5 is None` ({unparse(encl.test) if encl else None})", ok=ok)
+    # the early `return None` of _io_call is only for `_geoh5 is None` (a workspace that never had a file): once there is a
+    # handle object, open or closed, no path may end in a silent None
+    has_handle = Facts(io.node, notnone={f"{sn}._geoh5": True})
+    live = reach3(g, [g.entry], has_handle)
+    early = [n for n in g.nodes if n.kind == "return" and (n.ast is None or falsy_result(n.ast, io.node))]
+    for n in early:
+        ok = n not in live
+        res.inst(f"_io_call: `return None` only under `self._geoh5 is None` (line {n.lineno})", ok=ok)
         if not ok:
-            res.find("Workspace", "_io_call", "silent None result", f"{io.module.relpath}:{r.lineno}", "a closed workspace silently returns None")
+            res.find("Workspace", "_io_call", "silent None result", f"{io.module.relpath}:{n.lineno}", "a closed workspace silently returns None")
     return res
 
 
